@@ -316,6 +316,9 @@ _BASE = [
     (dict(pre=[2], effs=[12, 10], goal=[0, 12]), [[]]),                                               # two goals: the second can fail alone
     (dict(pre=[], effs=[6, 0], inv=[1], goal=[0]), [[]]),                                             # a FORALL effect writes a fluent the invariant reads
     (dict(pre=[], effs=[13, 0], inv=[1], goal=[1]), [[]]),
+    (dict(pre=[], effs=[6], inv=[1], goal=[1]), [[]]),                                                # ONLY a forall effect touches the invariant's fluents
+    (dict(pre=[], effs=[13], inv=[1], goal=[1]), [[]]),
+    (dict(pre=[], effs=[13, 12], inv=[2], goal=[0]), [[]]),                                           # quantified invariant, forall effect
     (dict(pre=[], effs=[5, 2], effcond=0, goal=[0]), [["c2", "d"]]),                                 # conditional assignment + increase on one fluent
     (dict(pre=[12], effs=[17, 12], goal=[0]), [["x0"]]),                                             # effect value reads an undefined fluent
     (dict(pre=[], effs=[5, 16, 0], effcond=4, n_bounds="both", goal=[1]), [["x0", "c2"], ["x0", "c"], ["d2", "lb"]]),  # conditional assign + decrease
